@@ -219,7 +219,36 @@ def check_function_template(t, arity, diagnosed=()):
   return None
 
 
-def check_infix_template(t):
+def application_styles(repo, fq, template_param):
+  """How a template-filling method applies its template parameter:
+  subset of {'percent', 'format', 'replace'}; empty if not recognised."""
+  fi = repo.func(fq)
+  styles = set()
+  for x in walk_local(fi.node):
+    if isinstance(x, ast.BinOp) and isinstance(x.op, ast.Mod) and dotted(x.left) == template_param:
+      styles.add('percent')
+    if isinstance(x, ast.Call) and isinstance(x.func, ast.Attribute):
+      base = x.func.value
+      while isinstance(base, ast.Call) and isinstance(base.func, ast.Attribute):
+        base = base.func.value
+      if dotted(base) == template_param:
+        if x.func.attr == 'format':
+          styles.add('format')
+        elif x.func.attr == 'replace':
+          styles.add('replace')
+  return styles
+
+
+def check_infix_template(t, styles=('percent', 'format')):
+  if 'replace' in styles and 'percent' not in styles:
+    # textual substitution of the first two %s: no %-format rules apply
+    if '{left}' in t or '{right}' in t:
+      try:
+        fields = templates.format_fields(t)
+      except ValueError as e:
+        return 'ValueError at format time (%s)' % e
+      return None if set(fields) <= {'left', 'right'} else 'fields %s' % fields
+    return None if t.count('%s') == 2 else 'template has %d %%s, two operands are substituted' % t.count('%s')
   if '%s' in t:
     try:
       specs = templates.percent_specs(t)
@@ -247,6 +276,11 @@ def template_tables(chk, rid, only_engine=None):
   bulk = templates.bulk_functions(repo)
   ql = repo.func('expr_translate.QL.ConvertToSql')
   special = special_cased_names(repo)
+  infix_styles = application_styles(repo, 'expr_translate.QL.Infix', 'op')
+  func_styles = application_styles(repo, 'expr_translate.QL.Function', 'f')
+  if not infix_styles or not func_styles:
+    raise AnalysisError('QL.Infix / QL.Function: way of applying templates not recognised')
+  chk.extra['template_application'] = dict(Infix=sorted(infix_styles), Function=sorted(func_styles))
   reach = reachable_builtin_names(repo, base_f, base_i, ana, bulk)
   diagnosed = diagnosed_format_errors(repo)
   chk.extra['format_errors_diagnosed_by_QL.Function'] = sorted(diagnosed)
@@ -297,7 +331,7 @@ def template_tables(chk, rid, only_engine=None):
       if name not in (it or {}) and engine != sorted(classes)[0] and not only_engine:
         continue
       n_templates += 1
-      why = check_infix_template(t)
+      why = check_infix_template(t, infix_styles)
       chk.ob(rid, why is None, None,
              "%s infix template '%s': %s" % (cls if name in (it or {}) else 'QL', name, t),
              why or '', fi=ifi if name in (it or {}) else ql)
